@@ -45,6 +45,7 @@ Definition escape_word (w : word) : word :=
    [cur] = words on the line being filled, [col] = current_width, [first] = first_line.
    Returns lines as word lists. *)
 Section Fill.
+  Variable esc : word -> word.   (* markdown_escape_word *)
   Variables (width c0 c1 : Z) (md : bool).
 
   Fixpoint fill (ws : list word) (cur : list word) (col : Z) (first : bool)
@@ -58,31 +59,31 @@ Section Fill.
         else
           match cur with
           | [] =>
-              let ew := if md && negb first then escape_word w else w in
+              let ew := if md && negb first then esc w else w in
               let line_offset := if first then c0 else c1 in
               fill ws' [ew] (line_offset + wlen ew) first
           | _ =>
-              let ew := if md then escape_word w else w in
+              let ew := if md then esc w else w in
               cur :: fill ws' [ew] (c1 + wlen ew) false
           end
     end.
 End Fill.
 
-Definition wrap_words (ws : list word) (width c0 c1 : Z) (md : bool) : list (list word) :=
-  fill width c0 c1 md ws [] c0 true.
+Definition wrap_words (esc : word -> word) (ws : list word) (width c0 c1 : Z) (md : bool) : list (list word) :=
+  fill esc width c0 c1 md ws [] c0 true.
 
 Definition maybe (b : bool) (f : str -> str) (s : str) : str := if b then f s else s.
 
 (* wrap_paragraph_lines(text, width, initial_column, subsequent_offset,
                         replace_whitespace, drop_whitespace, splitter, len, is_markdown) *)
-Definition wrap_paragraph_lines (splitter : str -> list word)
+Definition wrap_paragraph_lines (esc : word -> word) (splitter : str -> list word)
   (text : str) (width c0 c1 : Z) (rw dw md : bool) : list str :=
   let t := maybe rw collapse_ws text in
   if width <=? 0 then
     let t := maybe dw strip t in
     match t with [] => [] | _ => [t] end
   else
-    map (fun l => maybe dw strip (join [sp] l)) (wrap_words (splitter t) width c0 c1 md).
+    map (fun l => maybe dw strip (join [sp] l)) (wrap_words esc (splitter t) width c0 c1 md).
 
 (* ---- specification checker ---------------------------------------------------
    [chk_lines width c1 md first scol L ws] decides whether the list of lines [L]
@@ -96,13 +97,13 @@ Definition wrap_paragraph_lines (splitter : str -> list word)
 Definition llen (l : list word) : Z :=
   fold_right (fun w a => wlen w + a) 0 l + Z.of_nat (length l) - 1.
 
-Definition esc_head (md : bool) (l : list word) : list word :=
+Definition esc_head (esc : word -> word) (md : bool) (l : list word) : list word :=
   match l with
-  | h :: t => (if md then escape_word h else h) :: t
+  | h :: t => (if md then esc h else h) :: t
   | [] => []
   end.
 
-Fixpoint chk_lines (width c1 : Z) (md first : bool) (scol : Z)
+Fixpoint chk_lines (esc : word -> word) (width c1 : Z) (md first : bool) (scol : Z)
   (L : list (list word)) (ws : list word) : bool :=
   match L with
   | [] => is_nil ws
@@ -112,14 +113,14 @@ Fixpoint chk_lines (width c1 : Z) (md first : bool) (scol : Z)
       let rest := skipn n ws in
       negb (is_nil l)
       && Nat.eqb (length orig) n
-      && strs_eqb l (if first then orig else esc_head md orig)
+      && strs_eqb l (if first then orig else esc_head esc md orig)
       && ((scol + llen l <=? width) || Nat.eqb n 1)
       && match rest with
          | [] => true
          | h :: _ => width <? scol + llen l + 1 + wlen h
          end
-      && chk_lines width c1 md false c1 L' rest
+      && chk_lines esc width c1 md false c1 L' rest
   end.
 
-Definition wrap_ok (ws : list word) (width c0 c1 : Z) (md : bool) (L : list (list word)) : bool :=
-  chk_lines width c1 md true c0 L ws.
+Definition wrap_ok (esc : word -> word) (ws : list word) (width c0 c1 : Z) (md : bool) (L : list (list word)) : bool :=
+  chk_lines esc width c1 md true c0 L ws.
